@@ -354,7 +354,7 @@ type config struct {
 
 func TestBooksAgreeWithModel(t *testing.T) {
 	name := t.Name()
-	hx.Check(t, 10000, 400000, 40, func(rt *rapid.T) {
+	hx.Check(t, 10000, 1200000, 40, func(rt *rapid.T) {
 		cfg := config{
 			cache:     uint(rapid.SampledFrom([]int{0, 8}).Draw(rt, "cache")),
 			lookahead: rapid.Bool().Draw(rt, "lookahead"),
